@@ -532,7 +532,11 @@ def rule_skipped_insert(text, ctx):
     def f(m):
         ctx.note('R21', m.group(0), 'verif_skipped_insert(&mut self.skipped, pattern)')
         return 'verif_skipped_insert(&mut self.skipped, pattern)'
-    return re.sub(r'self\.skipped\.insert\(pattern\.to_vec\(\)\)', f, text)
+    text = re.sub(r'self\.skipped\.insert\(pattern\.to_vec\(\)\)', f, text)
+    def g(m):
+        ctx.note('R21', m.group(0), 'verif_skipped_new()')
+        return 'verif_skipped_new()'
+    return re.sub(r'SkippedSet::<L>::new\(\)', g, text)
 
 
 def rule_fold(text, ctx):
